@@ -18,6 +18,7 @@ import Fca.Lemmas.DecisionLatticeTree
 import Fca.Lemmas.DecisionLatticeConv
 import Fca.Lemmas.DecisionLatticeConv2
 import Fca.Lemmas.DecisionLatticeCtx
+import Fca.Lemmas.DecisionLatticeScale
 namespace Fca.C20
 open Fca Fca.DL
 
@@ -174,6 +175,29 @@ theorem dl_converted_predicts_anywhere (t : Tree) (X X' : Rows) (m : Nat) (nxt :
   obtain ⟨_, preds, _, _, _, h1, h2, h3⟩ := dl_predict_other_context t X X' m nxt hwf' L hL order horder
   refine ⟨L, preds, hL, h1, h2, h3, ?_⟩
   rw [(dl_scale L X' m order c).1, h1]
+  rfl
+
+/-! ### homogeneity in the targets -/
+
+/-- FULL.  The converter is homogeneous in the targets: for EVERY tree (no hypothesis), every context and every constant
+    `c` — tiny, huge, zero or negative — converting the tree whose node values are all multiplied by `c`
+    (`scaleTargets`) gives exactly `dl *= c` of the conversion of the original tree: the same lattice and generators,
+    every decision (node delta) multiplied by `c`, none dropped, none rounded; the same exception if the original raises.
+    Consequently its predictions on any context are `c` times the original's (errors the same), and the tree's own
+    predictions scale the same way.  There is no scale of the targets below which a non-zero delta "does not count":
+    a converter that drops or rounds small deltas contradicts this statement at `c = 2⁻³⁰`. -/
+theorem dl_target_homogeneous (t : Tree) (c : Rat) (X X' : Rows) (m : Nat) (nxt : Rat → Rat)
+    (order : List GenRec → List GenRec) :
+    fromDecisionTree (scaleTargets t c) X m nxt = (fromDecisionTree t X m nxt).map (fun L => imul L c) ∧
+    (∀ L, fromDecisionTree t X m nxt = .ok L →
+        ∃ L', fromDecisionTree (scaleTargets t c) X m nxt = .ok L' ∧ L'.lat = L.lat ∧
+          L'.decisions = L.decisions.map (fun kv => (kv.1, kv.2 * c)) ∧
+          predict L' X' m order = (predict L X' m order).map (List.map (· * c))) ∧
+    (∀ x, treePredict (scaleTargets t c) x = treePredict t x * c) := by
+  refine ⟨fromDecisionTree_scale t c X m nxt, ?_, treePredict_scale t c⟩
+  intro L hL
+  refine ⟨imul L c, ?_, rfl, rfl, predict_imul L X' m order c⟩
+  rw [fromDecisionTree_scale, hL]
   rfl
 
 /-! ### non-vacuity: a concrete fitted tree (5 nodes, depth 2) meets every hypothesis — in both modes -/
